@@ -233,6 +233,15 @@ def run_check(prop, tier, seed):
     try:
         # 1. Mech-level model checking (design level; DRIFT/tool error, never a verdict by itself)
         for m in (prop.mech(tier, seed) if hasattr(prop, "mech") else []):
+            if m.get("apalache"):
+                # unbounded safety of a typed count-level model: Init => IndInv, IndInv /\ Next => IndInv', IndInv => Safety
+                info = lib.run_apalache(m["module"], m["apalache"], timeout=m.get("timeout", 600))
+                mech_info.append(info)
+                log("[mech] %s (apalache): %d of %d obligations discharged in %.1fs%s" % (
+                    m["module"], info["discharged"], info["obligations"], info["wall_s"], " - " + info["note"] if info.get("note") else ""))
+                if info.get("refuted"):
+                    raise ToolError("Apalache refutes %s of %s" % (info["refuted"], m["module"]))
+                continue
             r = lib.run_tlc(m["module"], m.get("cfg"), workers=m.get("workers", 8), env=m.get("env"),
                             coverage=m.get("coverage", True), timeout=m.get("timeout", 1800), xmx=m.get("xmx", "8g"),
                             simulate=m.get("simulate"), depth=m.get("depth"), seed=seed if m.get("simulate") else None,
